@@ -115,6 +115,7 @@ def run(ctx, R):
     R.sample({"occurrence_table": tname, "flags": flags, "sort_key_is_index": key_is_index})
     options_only_after_the_traversal(F, R, rb, wo, hb)
     every_variable_of_the_text_has_its_own_entry(F, R)
+    every_answer_of_the_stream_reader_binds_the_options(F, R, rb, wo)
 
 
 def options_only_after_the_traversal(F, R, rb, wo, hb):
@@ -176,4 +177,28 @@ def every_variable_of_the_text_has_its_own_entry(F, R):
                  "write_term_to_heap, arm for AnonVar%s (line %s): the dictionary key is made from %s and the variable's cell from %s: a key that is not the variable's own location "
                  "is shared by a run of anonymous variables (f(_,_) reports one variable)" % (" at the root" if root else "", arm["ln"], sorted(kl), sorted(vl)), F.where(tw[0]))
     R.floor("variable arms of write_term_to_heap", n, 4)
+
+
+def every_answer_of_the_stream_reader_binds_the_options(F, R, rb, wo):
+    """MachineState::read_term answers in three ways: a term was read (read_term_body), the end of the input was met
+    (write_read_term_options with empty lists), or an error. A return of plain Ok(()) is an answer whose option lists stay
+    unbound: reading again at the end of a stream opened with eof_action(eof_code) answered end_of_file and left
+    variables/1, variable_names/1 and singletons/1 unbound, while the first end_of_file bound them to []."""
+    rt = F.find_impl("MachineState", None, "read_term")
+    body = F.hir(rt)["body"]
+    bare = []
+    good = 0
+    for x in walk(body):
+        if x["k"] != "Ret" or x.get("val") is None:
+            continue
+        e = x["val"]
+        calls = [(y.get("resolved") or y.get("callee")) for y in walk(e) if y["k"] in ("Call", "MethodCall")]
+        if rb in calls or wo in calls:
+            good += 1
+        elif e["k"] == "Call" and (e.get("ctor") or e.get("callee") or "").endswith("Ok"):
+            bare.append(x["ln"])
+    if good < 2:
+        raise AnchorLost("MachineState::read_term: returns through read_term_body / write_read_term_options (%d)" % good)
+    R.ob("C45:stream-reader:every-answer-binds-the-options", not bare,
+         "MachineState::read_term returns plain Ok(()) at line %s: that answer (end_of_file read again from a stream with eof_action(eof_code)) leaves the option lists unbound" % bare, F.where(rt))
 
